@@ -38,14 +38,14 @@ def save_meta(sid, m):
     json.dump(m, open(meta_path(sid), "w"), indent=1)
 
 
-def intake(pid):
-    src = "/tmp/wt_%s/seed_out" % pid
+def intake(pid, src=None, letters="AB"):
+    src = src or "/tmp/wt_%s/seed_out" % pid
     out = []
-    for ab in "AB":
+    for ab, new in zip("AB", letters):
         patch = os.path.join(src, "patch_%s.diff" % ab)
         if not os.path.exists(patch):
             continue
-        sid = "%s_%s" % (pid, ab)
+        sid = "%s_%s" % (pid, new)
         d = os.path.join(SEEDED, sid)
         os.makedirs(d, exist_ok=True)
         shutil.copy(patch, os.path.join(d, "patch.diff"))
@@ -161,11 +161,38 @@ def detect(sid, props=None, tier="quick"):
     save_meta(sid, m)
 
 
+def report():
+    rows = []
+    for sid in sorted(os.listdir(SEEDED)):
+        if not os.path.isdir(os.path.join(SEEDED, sid)):
+            continue
+        m = load_meta(sid)
+        det = m.get("detection", {})
+        hits = ["%s (%s)" % (k.split("/")[0], "; ".join(x.replace("signature: ", "") for x in v.get("signatures", [])[:2]))
+                for k, v in sorted(det.items()) if v.get("exit") == 1]
+        miss = [k.split("/")[0] for k, v in sorted(det.items()) if v.get("exit") == 0]
+        rows.append((sid, m.get("confirmed"), m.get("needs_to_manifest", ""), hits, miss))
+    lines = ["# Seeded changes: which check catches which change", "",
+             "Generated by `tools/seeds.py report` from seeded/*/meta.json (quick tier, default seed, run against a scratch "
+             "worktree of /repo HEAD with the patch applied).", "",
+             "| seed | confirmed | needs, in order to manifest | caught by (signatures) | not caught by |", "|---|---|---|---|---|"]
+    for sid, conf, needs, hits, miss in rows:
+        lines.append("| %s | %s | %s | %s | %s |" % (sid, conf, needs, "<br>".join(hits) or "-", ", ".join(miss) or "-"))
+    open(os.path.join(SEEDED, "DETECTION.md"), "w").write("\n".join(lines) + "\n")
+    print("\n".join(lines))
+
+
 if __name__ == "__main__":
     cmd = sys.argv[1]
+    if cmd == "report":
+        report()
+        sys.exit(0)
     if cmd == "intake":
         for p in sys.argv[2:]:
             intake(p)
+    elif cmd == "intake2":
+        for p in sys.argv[2:]:
+            intake(p, "/tmp/w2_%s/seed_out" % p, "CD")
     elif cmd == "confirm":
         for s in sys.argv[2:]:
             confirm(s)
